@@ -79,6 +79,9 @@ func doReplay(e *Env, line string) int {
 	if len(f) >= 2 && strings.HasPrefix(f[0], "LEX") {
 		fmt.Println("engine:", engineLex(string(unhx(f[1]))))
 	}
+	if eng, ok := replayRunqLine(line); ok {
+		fmt.Println("engine:", eng)
+	}
 	if eng, ok := replayPlanLine(line); ok {
 		fmt.Println("engine:", eng)
 	}
